@@ -203,14 +203,16 @@ func (g *wgen) run(seed uint64, proc, idx int) proto.RunRec {
 		switch x := r.n(100); {
 		case x < 12:
 			pk = "seq"
-		case x < 47:
+		case x < 42:
 			pk = "walk"
-		case x < 67:
+		case x < 60:
 			pk = "pct"
-		case x < 84:
+		case x < 75:
 			pk = "herd"
-		default:
+		case x < 88:
 			pk = "stall"
+		default:
+			pk = "quantum"
 		}
 	}
 	p := proto.PolicyRec{Kind: pk, Seed: mix(seed, uint64(proc), uint64(idx), 0x22), EstSteps: est}
@@ -224,6 +226,11 @@ func (g *wgen) run(seed uint64, proc, idx int) proto.RunRec {
 		p.PBound = 0.3
 	case "pct":
 		p.Depth = 1 + r.n(3)
+	case "quantum":
+		// time slices from a handful of yields (fine-grained interleaving) to a few thousand
+		p.Quantum = int64(logU(r, 0.5, 3.8))
+		p.PShared = 0.3 * r.f()
+		p.PBound = 0.5
 	case "herd":
 		switch r.n(4) {
 		case 0:
